@@ -258,8 +258,16 @@ def r02_3(ctx):
     ctx.check(cnt >= 3, "DirectCollocation computes the step per interval", detail="dt definitions", expected=">=3 per-interval definitions", found=str(cnt), fi=f)
 
 
-@rule("R02.4", min_instances=2, desc="collocation times: tr[k][i][j] = integrator_grid[k][i] + dt_k*tau[j]")
+@rule("R02.4", min_instances=2, desc="collocation times: tr[k][i][j] = integrator_grid[k][i] + dt_k*tau[j] (decided on the lists the layout interpreter builds from add_constraints, whatever statement form fills them)")
 def r02_4(ctx):
+    from .layout_rules import collocation_times
+    n = collocation_times(ctx)
+    if n == 0:
+        # the interpreter could not follow the method (recorded as a note in the quick tier): fall back to the syntactic form
+        _r02_4_syntactic(ctx)
+
+
+def _r02_4_syntactic(ctx):
     f, sc, n = dc(ctx)
     apps = [a for a in walk_no_nested(f.node) if is_call_to(a, "append", "tr")]
     ok = len(apps) == 1
